@@ -413,6 +413,13 @@ theorem C01_legacy_F1_rows_witness :
       ≠ thetaRes F0 I0 X0 1 1 := by
   decide +kernel
 
+/-- the history constant of finding F36: an algebraic state with history `[1.5, -4.5, 1.75]` at
+    `[-2, -1, 0]` enters the initial residual with the derivative `6.25`; a history of one point,
+    or none, gives `0` -/
+example : histDer (some [(-2, 3 / 2), (-1, -9 / 2), (0, 7 / 4)]) 0 = 25 / 4
+    ∧ histDer (some [(0, 7 / 4)]) 0 = 0 ∧ histDer none 0 = 0 := by
+  decide +kernel
+
 /-- a control on its own coarser stamps `{0, 3}` (linear mode): at the collocation time `1` the
     rows see the interpolant of its physical values -/
 def S1 : Sys := { S0 with own := fun v => if v = 1 then some ⟨[0, 3], 0⟩ else none }
